@@ -228,6 +228,7 @@ impl Store {
         match &self.entries[operation.obj.index] {
             Entry::Atomic(entry) => entry.dependent_loads(operation.action.into()),
             Entry::Arc(entry) => entry.additional_dependent_accesses(operation.action.into()),
+            Entry::Channel(entry) => entry.additional_dependent_accesses(operation.action.into()),
             _ => &[],
         }
     }
